@@ -1,22 +1,28 @@
 #!/bin/sh
-# usage: tools/run_seeded.sh <tier> [seeded-id ...]   runs each seeded change against the check of its property (and any extra ids in meta.json "also")
-# writes seeded/RESULTS.<tier>.txt ; /repo is restored after every change
+# usage: tools/run_seeded.sh <tier> [seeded-id ...]
+# Applies each seeded change to a scratch worktree of /repo (never to /repo itself), runs the check of its property (and
+# the ids listed under "also" in meta.json) against that worktree, and records the outcome in seeded/RESULTS.<tier>.txt.
 T=${1:-quick}; shift
 cd /verif
 OUT=seeded/RESULTS.$T.txt
+WT=/tmp/wt_matrix
+git -C /repo worktree remove --force $WT 2>/dev/null; git -C /repo worktree prune
+git -C /repo worktree add -q --detach $WT HEAD || exit 1
+mkdir -p /tmp/matrix_out
 [ $# -eq 0 ] && set -- $(ls seeded | grep -v RESULTS)
 for s in "$@"; do
   d=/verif/seeded/$s
   [ -f $d/patch.diff ] || continue
   prop=$(python3 -c "import json;print(json.load(open('$d/meta.json'))['property'])")
   also=$(python3 -c "import json;print(' '.join(json.load(open('$d/meta.json')).get('also',[])))")
-  if ! git -C /repo apply $d/patch.diff 2>/dev/null; then echo "$s APPLY-FAIL" | tee -a $OUT; continue; fi
+  git -C $WT checkout -q -- . 
+  if ! git -C $WT apply $d/patch.diff 2>/dev/null; then echo "$s APPLY-FAIL" | tee -a $OUT; continue; fi
   line="$s"
   for id in $prop $also; do
-    timeout 1500 ./check $id $T > /tmp/seeded_$s.$id.log 2>&1; rc=$?
+    VERIF_REPO=$WT VERIF_OUT=/tmp/matrix_out timeout 1500 ./check $id $T > /tmp/seeded_$s.$id.log 2>&1; rc=$?
     msg=$(grep -A1 -m1 VIOLATION /tmp/seeded_$s.$id.log | tail -1 | cut -c1-140)
     line="$line | $id rc=$rc $msg"
   done
-  git -C /repo checkout -- .
   echo "$line" | tee -a $OUT
 done
+git -C /repo worktree remove --force $WT
